@@ -91,6 +91,7 @@ def gen(rng, tier):
             sops.append(["yield", rng.randrange(1, 4)])
     if m >= n:
         sops.append(["latch_set", "sent-m"])
+    sops.append(["latch_set", "sent-all"])
     if ending == "raise":
         sops.append(["raise", "body boom"])
     elif ending == "close_sub":
@@ -142,6 +143,7 @@ def gen(rng, tier):
     rops.append(["sleep", 0.5])
     if not dropped:
         rops.append(["recv", T])
+    race = False
     if recv_side == "i":
         actors.append({"side": "i", "gw": gwi, "chan": "c0", "ops": rops})
         R_aid = len(actors) - 1
@@ -150,7 +152,14 @@ def gen(rng, tier):
         W["ops"] += sops
         if ending == "close_sub":
             W["ops"].append(["latch_wait", "fin", 900])
-        main += [["spawn", R_aid], ["join", R_aid, 900], ["latch_set", "fin"]]
+        race = not dropped and rng.random() < 0.25
+        if race:
+            # another task of the receiving side closes the channel locally while the peer's own end (close, end of
+            # the body, error, death) is on its way: both paths unregister the callback, one endmarker all the same
+            actors.append({"side": "i", "gw": gwi, "chan": "c0",
+                           "ops": [["latch_wait", "sent-all", 300], ["yield", rng.randrange(0, 30)], ["close", T]]})
+            main += [["spawn", len(actors) - 1]]
+        main += [["spawn", R_aid], ["join", R_aid, 900]] + ([["join", len(actors) - 1, 900]] if race else []) + [["latch_set", "fin"]]
     else:
         # receiver on the worker, sender on the initiator
         R_aid = 1
@@ -158,10 +167,15 @@ def gen(rng, tier):
         W["ops"] += rops
         main += [["spawn", S_aid], ["join", S_aid, 900], ["join", 1, 900]]
     main.append(["terminate", 10.0])
+    pat = L.gen_preempt_at(rng, ["setcallback", "_local_close", "_local_receive", "_no_longer_opened", "_finished_receiving", "_thread_receiver", "make_receive_queue"])
+    if race and rng.random() < 0.7:
+        # the two unregistering paths meet inside _no_longer_opened / close
+        pat = [[rng.choice(["_no_longer_opened", "_no_longer_opened", "close", "_local_close"]), rng.randrange(1, 16)]
+               for _ in range(rng.randrange(1, 4))]
     return {"gateways": specs, "actors": actors, "knobs": knobs, "strategy": L.gen_strategy(rng),
-            "preempt": L.gen_preempt(rng, 3000), "preempt_at": L.gen_preempt_at(rng, ["setcallback", "_local_close", "_local_receive", "_no_longer_opened", "_finished_receiving", "_thread_receiver", "make_receive_queue"]), "faults": faults, "transport": transport, "backend": backend,
+            "preempt": L.gen_preempt(rng, 3000), "preempt_at": pat, "faults": faults, "transport": transport, "backend": backend,
             "gwi": gwi, "mode": "single", "ending": ending, "subject": T, "recv_side": recv_side, "dir": d,
-            "R": R_aid, "S": S_aid, "want_end": want_end, "pre": pre, "pos": pos, "n": n,
+            "R": R_aid, "S": S_aid, "want_end": want_end, "pre": pre, "pos": pos, "n": n, "race": race,
             "endmarker_kind": rng.choice(ENDKINDS)}
 
 
@@ -225,7 +239,7 @@ def execute(case, chooser):
         feats = {("multi", len(case["labels"]), case["want_end"])}
     else:
         V, ncb = oracle(case, res, hist)
-        feats = {(case["transport"], case["ending"], case["recv_side"], case["pos"], case["want_end"], case["pre"])}
+        feats = {(case["transport"], case["ending"], case["recv_side"], case["pos"], case["want_end"], case["pre"], case.get("race", False))}
     sample = None
     if chooser.rng is not None and chooser.rng.random() < 0.004:
         sample = {k: case.get(k) for k in ("mode", "transport", "backend", "ending", "pos", "want_end", "pre", "n",
@@ -310,7 +324,10 @@ def oracle(case, res, hist):
         V.append(v("endmarker-count", f"{key0};n={min(len(ends), 3)}", f"endmarker delivered {len(ends)} times"))
     if ends and not case["want_end"]:
         V.append(v("endmarker-not-requested", key0, "endmarker delivered though none was requested"))
-    if ends and items and items[-1][0] > ends[0]:
+    race = case.get("race", False)
+    if ends and items and items[-1][0] > ends[0] and not race:
+        # (a local close of the receiving side is not one of the ends the property speaks of: an item in the
+        # receiver thread's hands at that moment may still be handed over afterwards)
         V.append(v("item-after-endmarker", key0, f"item {items[-1][1]} after the endmarker"))
     proxied_kill = case["transport"] == "proxy" and case["ending"] == "kill"
     W = wire_tokens_for(case, res, hist, T, case["dir"]) if case["transport"] != "proxy" else None
@@ -328,7 +345,7 @@ def oracle(case, res, hist):
         V.append(v("reorder", key0, f"receive() before setcallback got {pre_toks}, wire order {W}"))
     if toks != rest[:len(toks)]:
         V.append(v("reorder", key0, f"callback sequence {toks} is not a prefix of the remaining wire order {rest}"))
-    elif ended and len(toks) < len(rest) and not proxied_kill:
+    elif ended and len(toks) < len(rest) and not proxied_kill and not race:
         V.append(v("lost-item", key0, f"stream ended, callback got {toks}, wire order (after {len(pre_toks)} received) {rest}"))
     if ended and case["want_end"] and len(ends) == 0:
         V.append(v("endmarker-count", f"{key0};n=0", "endmarker requested, never delivered"))
